@@ -77,6 +77,7 @@ func c03(c *Ctx) {
 	r.Assumptions = []string{"zrnt merkle.VerifyMerkleBranch uses the low `depth` bits of index; fastssz VerifyProof checks a generalized-index proof", "consensus-spec generalized indices (execution payload block_hash 3228 / 6444; historical batch / summary block roots)"}
 	r.Floor("R1.era-dispatch", 5)
 	r.Floor("R2.success-gates", 7)
+	proofChunkerWholeWords(c, "R2.success-gates")
 	r.Floor("R3.merkle-arguments", 20)
 	r.Floor("R4.bounds-to-error", 3)
 	r.Floor("R5.prover-agreement", 4)
